@@ -218,7 +218,7 @@ def param_table(check: Check) -> None:
     check.analysed(init)
     params, renames = context_params(fn, p)
     attrs = set()
-    for n in ast.walk(init.node):
+    for n in ast.walk(init.analysis_node):
         if isinstance(n, (ast.Assign, ast.AnnAssign)):
             for t in (n.targets if isinstance(n, ast.Assign) else [n.target]):
                 if isinstance(t, ast.Attribute) and isinstance(t.value, ast.Name) and t.value.id == "self":
